@@ -27,6 +27,10 @@ func init() {
 			"every cycle of every unbounded loop of the recursive-descent parser consumes a real (known non-EOF) token before it returns to the loop head, or leaves the loop (consume / consume-or-report summaries with and without a peeked token, report.HasErrors() edges). " +
 			"Not decided: absence of panics on arbitrary bytes, positions inside the input, print∘parse round-trip equality as values, limit accounting (value level), depth of recursion.",
 		Mutants: []Mutant{
+			{Name: "after a description any token is taken as the name of an input value (reverts the F62 fix)", File: "v2/pkg/astparser/parser.go", Rule: "C05-R12", Key: "Parser.parseInputValueDefinition/name-from-ident-token",
+				Old: "\tinputValueDefinition.Name = p.mustRead(keyword.IDENT).Literal\n", New: "\tinputValueDefinition.Name = p.read().Literal\n"},
+			{Name: "an operation name is read without looking at the token (positive control)", File: "v2/pkg/astparser/parser.go", Rule: "C05-R12", Key: "name-from-ident-token",
+				Old: "\tif p.peekEquals(keyword.IDENT) {\n\t\toperationDefinition.Name = p.read().Literal\n\t}\n", New: "\tif !p.peekEquals(keyword.LPAREN) {\n\t\toperationDefinition.Name = p.read().Literal\n\t}\n"},
 			{Name: "list types are parsed without the nesting guard (reverts part of the F61 fix)", File: "v2/pkg/astparser/parser.go", Rule: "C05-R11", Key: "recursion-cycle-is-bounded:Parser.ParseType",
 				Old: "func (p *Parser) ParseType() (ref int) {\n\tif !p.enterNested() {\n\t\treturn ast.InvalidRef\n\t}\n\tdefer p.leaveNested()\n", New: "func (p *Parser) ParseType() (ref int) {\n"},
 			{Name: "the nesting guard counts but never refuses (reverts part of the F61 fix)", File: "v2/pkg/astparser/parser.go", Rule: "C05-R11", Key: "recursion-cycle-is-bounded",
@@ -91,6 +95,7 @@ type progressConfig struct {
 
 func runC05(r *fw.Run) {
 	defer c05ParserRecursionIsBounded(r)
+	defer c05NamesComeFromIdentTokens(r)
 
 	// ---- R1 loop progress ------------------------------------------------------------------------
 	r.Rule("C05-R1", "every unbounded loop of the lexer, the tokenizer and the Cache-Control lexer/parser consumes input on each cycle back to its head and has an exit guarded by an end-of-input test")
@@ -2228,4 +2233,229 @@ func c05ParserRecursionIsBounded(r *fw.Run) {
 			"the functions "+strings.Join(bad, ", ")+" can call each other (or themselves) without passing a nesting guard: the recursion depth follows the nesting of the input without bound, and a few megabytes of '[' or '{' end the process with a fatal stack overflow that cannot be recovered")
 	}
 	r.Expect("C05-R11", "cyclic components of the parser's call graph", n, 1)
+}
+
+// c05NamesComeFromIdentTokens (R12): the printer writes the name of a node as the bytes the parser stored, so a stored
+// "name" that is not a Name token (a string, a number, `$`) prints to text the parser rejects — the document was accepted
+// and does not survive print+parse. Every token whose literal the parser stores in a name field of an AST node (a field
+// called Name / FragmentName of type ByteSliceReference of a struct of package ast) is therefore an IDENT or an error is
+// in the report: it comes from a checked read that demands an identifier (mustRead(IDENT), mustReadIdentKey,
+// mustReadExceptIdentKey), from a raw read() made while the next token was known to be IDENT (peek test), or it is a raw
+// token whose keyword was compared with IDENT — equal on this path, or reported through errUnexpectedToken. One correlated
+// fact per token variable ("is an identifier ∨ was reported") survives the join of the check's two edges.
+func c05NamesComeFromIdentTokens(r *fw.Run) {
+	p := r.Prog
+	r.Rule("C05-R12", "every token whose literal the parser stores as the name of an AST node is known to be an IDENT, or an error was reported for it (checked read, read under a peek for IDENT, or keyword compared with IDENT)")
+	pk := p.Pkg("astparser")
+	if pk == nil {
+		r.Error("C05-R12: package astparser not loaded")
+		return
+	}
+	info := pk.TypesInfo
+	isParserMethod := func(fn *types.Func, names ...string) bool {
+		if fn == nil {
+			return false
+		}
+		sig, _ := fn.Type().(*types.Signature)
+		if sig == nil || sig.Recv() == nil || fw.RecvName(sig.Recv().Type()) != "Parser" || fn.Pkg() != pk.Types {
+			return false
+		}
+		for _, n := range names {
+			if fn.Name() == n {
+				return true
+			}
+		}
+		return false
+	}
+	isIdentConst := func(e ast.Expr) bool {
+		c := fw.ConstObj(info, e)
+		return c != nil && c.Name() == "IDENT" && strings.HasSuffix(c.Pkg().Path(), "/keyword")
+	}
+	// a call that yields an identifier token or reports
+	identRead := func(c *ast.CallExpr, st *fw.State) bool {
+		fn := fw.Callee(info, c)
+		switch {
+		case isParserMethod(fn, "mustRead"):
+			return len(c.Args) == 1 && isIdentConst(c.Args[0])
+		case isParserMethod(fn, "mustReadIdentKey", "mustReadExceptIdentKey"):
+			return true
+		case isParserMethod(fn, "read"):
+			return st.Must("next-ident")
+		}
+		return false
+	}
+	isNameField := func(fv *types.Var) bool {
+		if fv == nil || (fv.Name() != "Name" && fv.Name() != "FragmentName") || !fw.TypeIs(fv.Type(), "ast", "ByteSliceReference") {
+			return false
+		}
+		return fv.Pkg() != nil && fv.Pkg().Path() == fw.PkgPath("ast")
+	}
+	n := 0
+	for _, fi := range p.Funcs("astparser") {
+		if fi.Decl.Recv == nil || !strings.HasPrefix(fi.Name(), "Parser.") {
+			continue
+		}
+		peekVars := map[types.Object]bool{}
+		fw.WalkAll(fi.Decl.Body, func(nd ast.Node) bool {
+			if as, ok := nd.(*ast.AssignStmt); ok && len(as.Rhs) == 1 {
+				if c, isCall := ast.Unparen(as.Rhs[0]).(*ast.CallExpr); isCall && isParserMethod(fw.Callee(info, c), "peek", "peekLiteral") {
+					if id, isID := as.Lhs[0].(*ast.Ident); isID && info.ObjectOf(id) != nil {
+						peekVars[info.ObjectOf(id)] = true
+					}
+				}
+			}
+			return true
+		})
+		isPeek := func(e ast.Expr) bool {
+			e = ast.Unparen(e)
+			if c, ok := e.(*ast.CallExpr); ok {
+				return isParserMethod(fw.Callee(info, c), "peek")
+			}
+			if id, ok := e.(*ast.Ident); ok {
+				return peekVars[info.ObjectOf(id)]
+			}
+			return false
+		}
+		tokenOfKeyword := func(e ast.Expr) types.Object { // T.Keyword → T
+			sel, ok := ast.Unparen(e).(*ast.SelectorExpr)
+			if !ok || sel.Sel.Name != "Keyword" {
+				return nil
+			}
+			if id, isID := ast.Unparen(sel.X).(*ast.Ident); isID {
+				return info.ObjectOf(id)
+			}
+			return nil
+		}
+		ord := 0
+		in := fw.NewInterp(fi)
+		checkValue := func(target string, v ast.Expr, pos token.Pos, st *fw.State) {
+			sel, ok := ast.Unparen(v).(*ast.SelectorExpr)
+			if !ok || sel.Sel.Name != "Literal" {
+				return
+			}
+			if !in.Final() {
+				return
+			}
+			okTok := false
+			what := ""
+			switch x := ast.Unparen(sel.X).(type) {
+			case *ast.CallExpr:
+				okTok = st.Must("rd:" + itoa(int(x.Pos())))
+				what = "the token read at this point"
+			case *ast.Ident:
+				okTok = st.Must("ok:" + x.Name)
+				what = "token " + x.Name
+			default:
+				return
+			}
+			n++
+			ord++
+			r.Check(okTok, "C05-R12", fi.Name()+"/name-from-ident-token#"+itoa(ord), p.Pos(pos), target+" in "+fi.Name()+" is filled from a token that is an identifier (or was reported)",
+				what+" is stored as "+target+" without being known to be an IDENT: a string, number or punctuator is accepted as a name, and the printed document (which writes the stored bytes) is rejected by the parser")
+		}
+		in.H = fw.Hooks{
+			Lit: func(l *ast.FuncLit, ctx fw.LitCtx, st *fw.State) fw.LitMode { return fw.LitSkip },
+			Cond: func(e ast.Expr, branch bool, st *fw.State) {
+				if c, ok := ast.Unparen(e).(*ast.CallExpr); ok {
+					if branch && isParserMethod(fw.Callee(info, c), "peekEquals") && len(c.Args) == 1 && isIdentConst(c.Args[0]) {
+						st.Set("next-ident")
+					}
+					return
+				}
+				a := fw.Atom(info, e, branch)
+				if a.Kind != "Eq" && a.Kind != "Ne" {
+					return
+				}
+				for _, pr := range [][2]ast.Expr{{a.X, a.Y}, {a.Y, a.X}} {
+					if !isIdentConst(pr[1]) {
+						continue
+					}
+					if isPeek(pr[0]) && a.Kind == "Eq" {
+						st.Set("next-ident")
+					}
+					if o := tokenOfKeyword(pr[0]); o != nil && a.Kind == "Eq" {
+						st.Set("ok:" + o.Name())
+					}
+				}
+			},
+			Case: func(tag ast.Expr, vals []ast.Expr, match bool, st *fw.State) {
+				if !match || len(vals) == 0 {
+					return
+				}
+				for _, v := range vals {
+					if !isIdentConst(v) {
+						return
+					}
+				}
+				if isPeek(tag) {
+					st.Set("next-ident")
+				}
+				if o := tokenOfKeyword(tag); o != nil {
+					st.Set("ok:" + o.Name())
+				}
+			},
+			Node: func(nd ast.Node, st *fw.State) {
+				switch x := nd.(type) {
+				case *ast.AssignStmt:
+					if len(x.Lhs) == len(x.Rhs) {
+						for i, l := range x.Lhs {
+							if id, isID := l.(*ast.Ident); isID {
+								if c, isCall := ast.Unparen(x.Rhs[i]).(*ast.CallExpr); isCall {
+									if st.Must("rd:" + itoa(int(c.Pos()))) {
+										st.Set("ok:" + id.Name)
+									} else if isParserMethod(fw.Callee(info, c), "read", "mustRead", "mustReadOneOf") {
+										st.Kill("ok:" + id.Name)
+									}
+								}
+							}
+							if fv, _ := fw.Field(info, l); isNameField(fv) {
+								owner := ""
+								if sel, isSel := ast.Unparen(l).(*ast.SelectorExpr); isSel {
+									_, owner = fw.FieldOwner(info, sel)
+								}
+								checkValue(owner+"."+fv.Name(), x.Rhs[i], x.Pos(), st)
+							}
+						}
+					}
+				case *ast.CompositeLit:
+					for _, el := range x.Elts {
+						kv, ok := el.(*ast.KeyValueExpr)
+						if !ok {
+							continue
+						}
+						k, isID := kv.Key.(*ast.Ident)
+						if !isID {
+							continue
+						}
+						if fv, _ := info.ObjectOf(k).(*types.Var); isNameField(fv) {
+							tn := ""
+							if tv, okT := info.Types[x]; okT {
+								tn = fw.RecvName(tv.Type)
+							}
+							checkValue(tn+"."+fv.Name(), kv.Value, kv.Pos(), st)
+						}
+					}
+				case *ast.CallExpr:
+					fn := fw.Callee(info, x)
+					// what this read yields is decided now, before the read itself invalidates the look-ahead
+					if identRead(x, st) {
+						st.Set("rd:" + itoa(int(x.Pos())))
+					} else {
+						st.Kill("rd:" + itoa(int(x.Pos())))
+					}
+					if isParserMethod(fn, "errUnexpectedToken") && len(x.Args) >= 1 {
+						if id, isID := ast.Unparen(x.Args[0]).(*ast.Ident); isID {
+							st.Set("ok:" + id.Name) // reported
+						}
+					}
+					// anything of the parser that is not a look-ahead may consume: what is known about the next token is gone
+					if fn != nil && fn.Pkg() == pk.Types && isParserMethod(fn, fn.Name()) && !isParserMethod(fn, "peek", "peekLiteral", "peekEquals", "peekEqualsIdentKey", "identKeywordToken", "identKeywordSliceRef", "errUnexpectedToken") {
+						st.Kill("next-ident")
+					}
+				}
+			},
+		}
+		in.Run(nil)
+	}
+	r.Expect("C05-R12", "name fields filled from tokens", n, 25)
 }
